@@ -40,7 +40,7 @@ CHECKS = {
             "close_graph (model of assert_close not raising) is proved reflexive, symmetric, sound (a positive answer implies pairwise closeness of "
             "every semantic attribute incl. the number of epochs) and invariant under text fields, deme order, migration order and ancestor order; "
             "isclose vs assert_close agreement and sensitivity to single-attribute perturbations are checked on the implementation."),
-    "C11": ("proof", "Coq proof (every time divided, frame unchanged, idempotent) + correspondence; validity of the result is a known finding on binary64",
+    "C11": ("proof", "Coq proof (every time divided, frame unchanged, idempotent, result valid whenever the division is order-preserving on the graph's times) + correspondence; the binary64 cases where division is not order-preserving are known findings",
             "in_generations is proved to divide every time by the generation time and change nothing else, and to be idempotent given x/1 == x; "
             "receiver-unchanged and no shared state are checked on the implementation; the result can be invalid on binary64 when the quotient "
             "collapses, overflows or underflows (F12a-c)."),
